@@ -399,10 +399,6 @@ def install_matchers(check):
             k['_matcher'] = lambda what, replay: (what.startswith('prefix ') and replay.get('prefix_is_from_branch_text') is True) \
                 or (replay.get('from_branch_misfire') is True
                     and what.startswith(('cursor at the end of a name read', 'cursor after "expr."')))
-        elif k.get('class') == 'unresolvable-import':
-            k['_matcher'] = lambda what, replay: what.startswith('assist raised ImportError in project.py:')
-        elif k.get('class') == 'runtime-type-instantiation':
-            k['_matcher'] = lambda what, replay: what.startswith('assist raised RuntimeError in name.py:call')
 
 
 def run(check):
@@ -527,7 +523,7 @@ def run(check):
     srcs = ['', 'a', 'ab\ncd', 'ab\ncd\n', '\n', 'a\r\nb', 'x = 1\n\x0cy = 2\n', 'é = 1\nfö', 'a\n\nb'] + [c[0] for c in cases[:40]]
     for src in srcs:
         nl = len(src.splitlines())
-        for ln in sorted(set([1, 2, nl, nl + 1, nl + 2, nl + 5, max(1, nl - 1)])):
+        for ln in sorted(set([1, 2, nl, nl + 1, nl + 2, nl + 5, nl + 40, max(1, nl - 1)])):
             for col in (0, 1, 2, 5, 100):
                 try:
                     s = S.util.Source(src, 'f.py', (ln, col))
